@@ -15,6 +15,7 @@ behaviour-preserving spellings of the same code:
 Positions (lineno) of rewritten nodes are those of the original nodes, so reports still point into the real file.
 """
 import ast
+import os
 
 _FLIP = {ast.Gt: ast.Lt, ast.GtE: ast.LtE}
 _NEG = {ast.In: ast.NotIn, ast.NotIn: ast.In, ast.Is: ast.IsNot, ast.IsNot: ast.Is, ast.Eq: ast.NotEq, ast.NotEq: ast.Eq,
@@ -144,8 +145,80 @@ def _names_global(tree, names):
     return False
 
 
+def _terminates(block):
+    return bool(block) and isinstance(block[-1], (ast.Return, ast.Raise, ast.Continue, ast.Break))
+
+
+def _is_chain(st):
+    return getattr(st, "_elif", False) or (len(st.orelse) == 1 and isinstance(st.orelse[0], ast.If) and st.orelse[0].col_offset == st.col_offset)
+
+
+def _guard_style(tree):
+    """C6  guard style for two-armed tests one arm of which leaves the block (return / raise / continue / break):
+             if c: A(leaves) else: B          ->  if c: A ; B
+             if c: A else: B(leaves)          ->  if not c: B ; A
+       and, when the guarded arm AND the rest of the block both leave, the guard is the smaller of the two (fewer statements), the one
+       under the positive test on a tie:
+             if c: A(long, leaves) ; B(short, leaves)  ->  if not c: B ; A
+       elif chains are left alone."""
+    canon = _Canon()
+
+    def negate(t):
+        return canon.visit_UnaryOp(ast.copy_location(ast.UnaryOp(op=ast.Not(), operand=t), t))
+
+    def size(block):
+        return sum(1 for s_ in block for x in ast.walk(s_) if isinstance(x, ast.stmt))
+
+    def fix(block):
+        # inner blocks first
+        for st in block:
+            for fld in ("body", "orelse", "finalbody"):
+                b = getattr(st, fld, None)
+                if isinstance(b, list) and b and isinstance(b[0], ast.stmt):
+                    setattr(st, fld, fix(b))
+            for h in getattr(st, "handlers", []) or []:
+                h.body = fix(h.body)
+        out = list(block)
+        i = 0
+        while i < len(out):
+            st = out[i]
+            if isinstance(st, ast.If) and not _is_chain(st):
+                if st.orelse:
+                    tb, te = _terminates(st.body), _terminates(st.orelse)
+                    if tb and te and size(st.orelse) < size(st.body):
+                        st.test, st.body, st.orelse = negate(st.test), st.orelse, st.body      # the smaller arm is the guard
+                    if tb:
+                        rest = st.orelse
+                        st.orelse = []
+                        out[i + 1:i + 1] = rest
+                        continue                       # look at the same statement again (now one-armed)
+                    if te:
+                        body = st.body
+                        st.test, st.body, st.orelse = negate(st.test), st.orelse, []
+                        out[i + 1:i + 1] = body
+                        continue
+                elif _terminates(st.body) and i + 1 < len(out) and _terminates(out[i + 1:]):
+                    # both the guarded arm and the rest of the block leave: the guard is the smaller of the two, the positive test on a tie
+                    rest = out[i + 1:]
+                    sa_, sb_ = size(st.body), size(rest)
+                    t, sw = canon._positive(st.test)
+                    if sb_ < sa_ or (sb_ == sa_ and sw):
+                        guarded = st.body
+                        st.test, st.body = (t if sw else negate(st.test)), rest
+                        out[i + 1:] = guarded
+            i += 1
+        return out
+
+    for node in ast.walk(tree):
+        if isinstance(node, (ast.FunctionDef, ast.AsyncFunctionDef)):
+            node.body = fix(node.body)
+    return tree
+
+
 def canonicalise(tree):
     tree = _Canon().visit(tree)
+    if os.environ.get("VERIF_NOGUARD") != "1":
+        _guard_style(tree)
     _split_parallel_assignments(tree)
     _fold_return_temps(tree)
     ast.fix_missing_locations(tree)
